@@ -372,9 +372,6 @@ def wOf (net : Net) (c : Nat) : Nat := (net.ws[c]?).getD 0
 
 def planCost (net : Net) (plan : List Nat) : Nat := (plan.map (fun d => 1 + wOf net d)).sum
 
-/-- position of the first `join n` in the script -/
-def joinPos (net : Net) (n : Nat) : Option Nat := net.script.idxOf? (.join n)
-
 /-- a sentinel is certain to have been put on `c` before script position `p`: by the main thread, or by a
     node joined before `p` that forwards the sentinel to `c` -/
 def fedBefore (net : Net) (c p : Nat) : Bool :=
@@ -389,10 +386,11 @@ def fedBefore (net : Net) (c p : Nat) : Bool :=
 def nodeOk (net : Net) (n : Nat) (nd : NodeDesc) : Bool :=
   -- weights strictly decrease along every plan
   nd.ins.all (fun c => nd.plans.all (fun plan => 1 + planCost net plan ≤ wOf net c))
-  -- the node is joined, and before that a sentinel is certain to reach one of its inputs
-  && (match joinPos net n with
-      | none => false
-      | some p => nd.ins.any (fun c => fedBefore net c p))
+  -- the node is joined, and before every such join a sentinel is certain to reach one of its inputs
+  && net.script.contains (.join n)
+  && (List.range net.script.length).all (fun p =>
+        net.script[p]? != some (.join n) || nd.ins.any (fun c => fedBefore net c p))
+  && !nd.plans.isEmpty
   -- a reader that does not put the sentinel back is the only reader of its input channels
   && (nd.rebro || nd.ins.all (fun c =>
         (List.range net.nodes.length).all (fun m =>
